@@ -172,16 +172,8 @@ func peek(input OmegaInput) (output OmegaOutput) {
 
 	n, o, s, z := input.VM.Registers[7], input.VM.Registers[8], input.VM.Registers[9], input.VM.Registers[10]
 
-	if z == 0 {
-		input.VM.Registers[7] = OK
-		return OmegaOutput{
-			ExitReason: ExitContinue,
-			Addition:   input.Addition,
-		}
-	}
-
 	// z = offset
-	if !isWriteable(o, z, *input.VM.Memory) { // not writeable, return
+	if z != 0 && !isWriteable(o, z, *input.VM.Memory) { // not writeable, return
 		input.VM.Registers[7] = OOB
 		return OmegaOutput{
 			ExitReason: ExitPanic,
@@ -192,6 +184,14 @@ func peek(input OmegaInput) (output OmegaOutput) {
 	// otherwise if n not in K(m)
 	if _, exists := input.Addition.IntegratedPVMMap[n]; !exists {
 		input.VM.Registers[7] = WHO
+		return OmegaOutput{
+			ExitReason: ExitContinue,
+			Addition:   input.Addition,
+		}
+	}
+
+	if z == 0 {
+		input.VM.Registers[7] = OK
 		return OmegaOutput{
 			ExitReason: ExitContinue,
 			Addition:   input.Addition,
